@@ -113,6 +113,7 @@ static Bytes distinct_bytes(size_t n, uint8_t salt) { Bytes b(n); for (size_t i 
 int main(int argc, char **argv) {
     Args a = parse_args(argc, argv);
     if (!a.replay.empty()) return replay_case(a, run);
+    zygote_start(run);   // before any code under test runs in this process
     Current::install(a.failing);
     Evidence ev;
     ev.rule = "attribute tuples: MAC (random, zero, broadcast), flags in 2^16, ifType/IPv4/speed in 2^32 with byte-boundary dictionary, IPv6 16 random bytes, hostname and SSID of every length 0..40 with distinct bytes "
